@@ -43,7 +43,7 @@ def run(sc, module, trs, what, n, seed):
         kinds = props.CONF_KINDS
         if module == "TraceInprocUnary":
             kinds = {"unary": (False, False)}
-            consts = lambda flags: {"NH": 60, "MaxHdr": 20, "MaxTrl": 20, "Outcomes": '{"resp", "nilresp", "err"}',
+            consts = lambda flags: {"NH": 60, "MaxHdr": 20, "MaxTrl": 20, "Outcomes": '{"resp", "nilresp", "err", "resperr"}',
                                     "CancelKinds": '{"cancel", "deadline"}', "FixClosed": "TRUE", "FixDecode": "TRUE",
                                     "Known": "{}"}
         r = vlib.conform(sc, module, files, kinds, consts, "dev", trs=("http",) if "http" in trs else ("inproc",))
